@@ -412,7 +412,7 @@ def load_known_findings() -> List[Dict[str, str]]:
         m = re.match(r"^fixed:\s+property=(\S+)\s+(\S+)\s+(.*)$", line)
         if m:
             out.append({"kind": "fixed", "property": m.group(1), "commit": m.group(2),
-                        "text": m.group(3)})
+                        "text": m.group(3), "key": ""})
     return out
 
 
